@@ -267,6 +267,45 @@ def check_leaf(item):
                        witness={"family": "call", "oracle": "param_equivalence", "args": [ci.short]})]
 
 
+def check_create(_item):
+    """param/create: Parameterizer.create_param(value, ...) appends exactly `value` to self.values on EVERY returning
+    path and returns a new Parameter (so every placeholder it hands out has its own entry in the value list)"""
+    r = repo()
+    ci = r.cls("terms.Parameterizer")
+    fi = ci.methods["create_param"]
+    run = run_function(fi, ci)
+    name = fi.short
+    if run.error:
+        return [Obligation(PROP, f"{name}|param/create", "param/create", fi.short, UNSUPPORTED, reason=run.error)]
+    ex = run.ex
+    par = r.cls("terms.Parameter")
+    ok, why, n = True, "", 0
+    for o in run.outcomes:
+        if o.status != "return":
+            continue
+        n += 1
+        ex.st = o.state
+        apps = [w for w in o.state.writes if w.kind in ("append", "extend", "setitem", "insert", "attr", "clear", "remove")
+                and canon(w.path) in ("self.values", "self") and (w.path != "self" or w.attr == "values")]
+        live = [w for w in apps if ex.smt.feasible(o.state.pc + ([w.guard] if w.guard is not None else []))]
+        if len(live) != 1 or live[0].kind != "append":
+            ok, why = False, f"a returning path performs {[(w.kind, canon(w.path)) for w in live]} on the value list " \
+                             "instead of exactly one append"
+            continue
+        w = live[0]
+        if w.guard is not None and not ex.smt.implied(o.state.pc, w.guard):
+            ok, why = False, "the append is conditional on a returning path"
+        if canon(ex.ident(w.value)) != "value":
+            ok, why = False, f"appends {canon(ex.ident(w.value))} instead of the value"
+        v = o.value
+        if not (isinstance(v, Obj) and o.state.heap[v.oid].fresh and o.state.heap[v.oid].cls is par):
+            ok, why = False, f"returns {v!r}: not a new Parameter"
+    return [Obligation(PROP, f"{name}|param/create", "param/create", fi.short, PROVED if ok and n else REFUTED,
+                       detail=f"every returning path appends exactly the value and returns a new Parameter "
+                              f"({n} paths)", reason=why or ("" if n else "no returning path"),
+                       witness={"family": "call", "oracle": "param_equivalence", "args": ["*"]})]
+
+
 def check_plain(item):
     """param/plain-data: no builder or constructor wraps a query-builder object (Node) in a constant wrapper -
     such a value would be put into the parameter list while the SQL shows a placeholder"""
@@ -293,6 +332,8 @@ def _dispatch(item):
         return check_static(item)
     if item[0] == "$leaf":
         return check_leaf(item)
+    if item[0] == "$create":
+        return check_create(item)
     if item[0] in ("$plain-builder", "$plain-init"):
         return check_plain(item)
     return check_one(item)
@@ -303,7 +344,7 @@ def generate(tier="quick"):
     t = render_targets(r)
     from . import c01
     from .base import classes_using
-    extra = [("$static", None, [])]
+    extra = [("$static", None, []), ("$create", None, [])]
     for q in ("terms.ValueWrapper.get_sql", "terms.Array.get_sql"):
         f = r.func(q)
         for c in classes_using(r, f):
